@@ -5,6 +5,7 @@
 //@target src/e57_reader.rs
 //@check reads_are_history_independent serves=C17,C09,C03,C05 fn=E57Reader::{pointcloud_raw,pointcloud_simple,blob,xml} note="BOUNDED: one file with two point clouds (5000 points with sub-byte, 11-bit and 61-bit integer records plus doubles; 33 points) and a 3000-byte blob; 6 interleavings of partly consumed raw / simple iterators, blob reads and full reads; compared with a fresh reader per operation"
 //@check corrupted_pages_never_yield_other_data serves=C07,C08,C17 fn=PagedReader::{read_page,read},E57Reader::{new,validate_crc,pointcloud_raw} note="BOUNDED: the same file with one bit flipped at 5 positions (payload start/middle/end, first and last checksum byte) of EVERY page; E57Reader::new, raw reads of both clouds and validate_crc: validate_crc must fail, every other operation fails or returns exactly the result of the intact file; a failed read followed by a read of another cloud still returns the intact result; no panic"
+//@check unusual_packetisation_decodes serves=C03,C08,C09,C12 fn=QueueReader::{advance,parse_byte_streams,pop_point},ByteStreamReadBuffer::{append,extract},BitPack::unpack_* note="BOUNDED: one cloud of 257 points (f64, f32, 10-bit scaled integer, 0-bit integer, 61-bit integer) encoded by an INDEPENDENT encoder in this test (own bit packer, packets, pages, CRC-32C) in 7 packetisations: one packet; 1 byte per stream per packet; chunks of 3/5/7/11 bytes (values straddle packets); one stream ahead of the others (empty streams in packets); index packet first; ignored packets of 4, 1000 and 2044 bytes in between (straddling pages); all of it behind a 1016-byte ignored packet; raw read-back compared"
 //@module
     use crate::{E57Writer, Point, RawValues, Record, RecordDataType, RecordName, RecordValue};
     use std::io::Cursor;
@@ -170,6 +171,217 @@
                         }
                     }
                 }
+            }
+        }
+    }
+
+    // ---- independent encoder (format knowledge only; nothing from the library except the XML text it produced) -----------------------
+    fn crc32c_bitwise(data: &[u8]) -> u32 {
+        let mut crc = !0u32;
+        for b in data {
+            crc ^= *b as u32;
+            for _ in 0..8 {
+                crc = if crc & 1 != 0 { (crc >> 1) ^ 0x82F6_3B78 } else { crc >> 1 };
+            }
+        }
+        !crc
+    }
+    fn phys(l: usize) -> u64 {
+        ((l / 1020) * 1024 + l % 1020) as u64
+    }
+    fn to_pages(stream: &[u8]) -> Vec<u8> {
+        let mut out = Vec::new();
+        for chunk in stream.chunks(1020) {
+            let mut payload = vec![0u8; 1020];
+            payload[..chunk.len()].copy_from_slice(chunk);
+            out.extend_from_slice(&payload);
+            out.extend_from_slice(&crc32c_bitwise(&payload).to_be_bytes());
+        }
+        out
+    }
+    struct Bits {
+        bytes: Vec<u8>,
+        n: usize,
+    }
+    impl Bits {
+        fn push(&mut self, value: u64, width: usize) {
+            for k in 0..width {
+                if self.n % 8 == 0 {
+                    self.bytes.push(0);
+                }
+                if (value >> k) & 1 == 1 {
+                    let last = self.bytes.len() - 1;
+                    self.bytes[last] |= 1 << (self.n % 8);
+                }
+                self.n += 1;
+            }
+        }
+    }
+    enum Pk {
+        Data(Vec<usize>), // bytes taken from each stream
+        Index(usize),     // total length
+        Ignored(usize),   // total length
+    }
+    fn pad4(v: &mut Vec<u8>) {
+        while v.len() % 4 != 0 {
+            v.push(0);
+        }
+    }
+
+    #[test]
+    fn unusual_packetisation_decodes() {
+        const N: usize = 257;
+        let proto = vec![
+            Record::CARTESIAN_X_F64,
+            Record { name: RecordName::CartesianY, data_type: RecordDataType::Single { min: None, max: None } },
+            Record { name: RecordName::CartesianZ, data_type: RecordDataType::ScaledInteger { min: 0, max: 1023, scale: 0.001, offset: 0.0 } },
+            Record { name: RecordName::Intensity, data_type: RecordDataType::Integer { min: 5, max: 5 } },
+            Record { name: RecordName::RowIndex, data_type: RecordDataType::Integer { min: -7, max: (1i64 << 61) - 8 } },
+        ];
+        let mut points: Vec<RawValues> = Vec::new();
+        for i in 0..N as i64 {
+            points.push(vec![
+                RecordValue::Double(i as f64 * 0.25 - 3.0),
+                RecordValue::Single(1000.5 - i as f32),
+                RecordValue::ScaledInteger((i * 37) % 1024),
+                RecordValue::Integer(5),
+                RecordValue::Integer(((1i64 << 61) - 8) - i * 9_000_000_007),
+            ]);
+        }
+        // the library writes the same cloud: only its XML text and the position of the section (physical 48) are taken from it
+        let mut lib = Cursor::new(Vec::new());
+        {
+            let mut w = E57Writer::new(&mut lib, "guid-file").unwrap();
+            let mut pcw = w.add_pointcloud("guid-pc", proto.clone()).unwrap();
+            for p in &points {
+                pcw.add_point(p.clone()).unwrap();
+            }
+            pcw.finalize().unwrap();
+            w.finalize().unwrap();
+        }
+        let lib = lib.into_inner();
+        let xml = E57Reader::raw_xml(Cursor::new(lib.clone())).unwrap();
+        assert!(String::from_utf8(xml.clone()).unwrap().contains("fileOffset=\"48\""), "the section of the library file starts at physical offset 48");
+        // byte streams by an independent bit packer
+        let mut streams: Vec<Bits> = (0..5).map(|_| Bits { bytes: Vec::new(), n: 0 }).collect();
+        for i in 0..N as i64 {
+            let x = (i as f64 * 0.25 - 3.0).to_bits();
+            streams[0].push(x, 64);
+            streams[1].push((1000.5f32 - i as f32).to_bits() as u64, 32);
+            streams[2].push(((i * 37) % 1024) as u64, 10);
+            // stream 3: min == max: zero bits
+            let v = ((1i64 << 61) - 8) - i * 9_000_000_007;
+            streams[4].push((v - (-7)) as u64, 61);
+        }
+        let total: Vec<usize> = streams.iter().map(|b| b.bytes.len()).collect();
+        let all = |taken: &Vec<usize>| (0..5).all(|k| taken[k] == total[k]);
+        // packet plans
+        let mut plans: Vec<(String, Vec<Pk>)> = Vec::new();
+        plans.push(("one packet".into(), vec![Pk::Data(total.clone())]));
+        for (name, sizes) in [("1 byte per stream per packet", vec![1usize, 1, 1, 0, 1]), ("chunks 3/5/7/0/11", vec![3, 5, 7, 0, 11])] {
+            let mut taken = vec![0usize; 5];
+            let mut plan = Vec::new();
+            while !all(&taken) {
+                let c: Vec<usize> = (0..5).map(|k| sizes[k].min(total[k] - taken[k])).collect();
+                for k in 0..5 {
+                    taken[k] += c[k];
+                }
+                plan.push(Pk::Data(c));
+            }
+            plans.push((name.into(), plan));
+        }
+        {
+            // stream 0 completely first, then the others in three steps: packets with empty streams
+            let mut plan = vec![Pk::Data(vec![total[0], 0, 0, 0, 0])];
+            let third = |k: usize, part: usize| if part < 2 { total[k] / 3 } else { total[k] - 2 * (total[k] / 3) };
+            for part in 0..3 {
+                plan.push(Pk::Data(vec![0, third(1, part), third(2, part), 0, third(4, part)]));
+                plan.push(Pk::Data(vec![0, 0, 0, 0, 0]));
+            }
+            plans.push(("one stream ahead, empty streams".into(), plan));
+        }
+        {
+            let half: Vec<usize> = total.iter().map(|t| t / 2).collect();
+            let rest: Vec<usize> = (0..5).map(|k| total[k] - half[k]).collect();
+            plans.push(("index packet first, ignored packets in between".into(),
+                        vec![Pk::Index(16 + 32), Pk::Data(half.clone()), Pk::Ignored(4), Pk::Ignored(1000), Pk::Data(vec![0; 5]), Pk::Ignored(2044), Pk::Data(rest.clone()), Pk::Ignored(8)]));
+            plans.push(("behind a 1016-byte ignored packet".into(), vec![Pk::Ignored(1016 - 48 - 32 - 4), Pk::Ignored(4), Pk::Data(half), Pk::Index(16), Pk::Data(rest)]));
+        }
+        for (name, plan) in plans {
+            // logical stream: header placeholder, section header, packets, XML
+            let mut stream = vec![0u8; 48];
+            let mut section = vec![0u8; 32];
+            let mut taken = vec![0usize; 5];
+            let mut first_data: Option<usize> = None;
+            for pk in &plan {
+                let at = 48 + section.len();
+                match pk {
+                    Pk::Data(c) => {
+                        if first_data.is_none() {
+                            first_data = Some(at);
+                        }
+                        let mut p = vec![1u8, 0, 0, 0, 5, 0];
+                        for k in 0..5 {
+                            p.extend_from_slice(&(c[k] as u16).to_le_bytes());
+                        }
+                        for k in 0..5 {
+                            p.extend_from_slice(&streams[k].bytes[taken[k]..taken[k] + c[k]]);
+                            taken[k] += c[k];
+                        }
+                        pad4(&mut p);
+                        assert!(p.len() <= 65536);
+                        let l = (p.len() - 1) as u16;
+                        p[2..4].copy_from_slice(&l.to_le_bytes());
+                        section.extend_from_slice(&p);
+                    }
+                    Pk::Index(len) => {
+                        let mut p = vec![0u8; *len];
+                        p[2..4].copy_from_slice(&((*len - 1) as u16).to_le_bytes());
+                        p[4..6].copy_from_slice(&(((*len - 16) / 16) as u16).to_le_bytes());
+                        for b in p[16..].iter_mut() {
+                            *b = 0xEE;
+                        }
+                        section.extend_from_slice(&p);
+                    }
+                    Pk::Ignored(len) => {
+                        let mut p = vec![0xDDu8; *len];
+                        p[0] = 2;
+                        p[1] = 0;
+                        p[2..4].copy_from_slice(&((*len - 1) as u16).to_le_bytes());
+                        section.extend_from_slice(&p);
+                    }
+                }
+            }
+            assert!(all(&taken), "plan {name} does not carry all stream bytes");
+            section[0] = 1;
+            let sl = section.len() as u64;
+            section[8..16].copy_from_slice(&sl.to_le_bytes());
+            // the data offset is where the first PACKET starts (index / ignored packets included)
+            section[16..24].copy_from_slice(&phys(48 + 32).to_le_bytes());
+            stream.extend_from_slice(&section);
+            let xml_at = stream.len();
+            stream.extend_from_slice(&xml);
+            let pages = (stream.len() + 1019) / 1020;
+            let mut header = Vec::new();
+            header.extend_from_slice(b"ASTM-E57");
+            header.extend_from_slice(&1u32.to_le_bytes());
+            header.extend_from_slice(&0u32.to_le_bytes());
+            header.extend_from_slice(&((pages * 1024) as u64).to_le_bytes());
+            header.extend_from_slice(&phys(xml_at).to_le_bytes());
+            header.extend_from_slice(&(xml.len() as u64).to_le_bytes());
+            header.extend_from_slice(&1024u64.to_le_bytes());
+            stream[..48].copy_from_slice(&header);
+            let file = to_pages(&stream);
+            assert!(E57Reader::validate_crc(Cursor::new(file.clone())).is_ok(), "independent encoder produces valid pages: {name}");
+            let mut r = E57Reader::new(Cursor::new(file)).unwrap_or_else(|e| panic!("well-formed file refused ({name}): {e}"));
+            let pc = r.pointclouds()[0].clone();
+            let mut got: Vec<RawValues> = Vec::new();
+            for p in r.pointcloud_raw(&pc).unwrap() {
+                got.push(p.unwrap_or_else(|e| panic!("well-formed file, packetisation \"{name}\": read failed after {} points: {e}", got.len())));
+            }
+            assert_eq!(got.len(), N, "number of points, packetisation \"{name}\"");
+            for (i, (a, b)) in got.iter().zip(points.iter()).enumerate() {
+                assert!(a == b, "packetisation \"{name}\": point {i} is {a:?}, written {b:?}");
             }
         }
     }
